@@ -111,7 +111,7 @@ def check(run: Run) -> None:
         if k in hmap:
             h = hmap[k][0]
             fh = ctx.analysis(h)
-            vp = ("param", h.pos_params[1])
+            vp = ("param", h.pos_params[-2])
             field = "values" if k == "ast.Dict" else "elts"
             for s_, n_ in fh.returns():
                 t = strip_sites(fh.term_of(s_.value, n_)) if s_.value is not None else ("const", None)
@@ -128,7 +128,7 @@ def check(run: Run) -> None:
             continue
         h = hmap[k][0]
         fh = ctx.analysis(h)
-        vp, sp = ("param", h.pos_params[1]), ("param", h.pos_params[2])
+        vp, sp = ("param", h.pos_params[-2]), ("param", h.pos_params[-1])
         n_ref = 0
         for s_, n_ in fh.returns():
             t = strip_sites(fh.term_of(s_.value, n_)) if s_.value is not None else ("const", None)
